@@ -477,7 +477,9 @@ func runCase(t *testing.T, r *run.Runner, c *wireCase, idx int) {
 		}
 		var extra []string
 		for k := range resp2.Header {
-			if _, sent := o.header[k]; !sent && !own[k] && k != "Content-Length" {
+			if _, sent := o.header[k]; !sent && !own[k] {
+				// (also a Content-Length the origin never sent - chunked or
+				// close-delimited replies: "plus only the cache's own Age and status fields")
 				extra = append(extra, k)
 			}
 			if hop[k] {
@@ -490,6 +492,13 @@ func runCase(t *testing.T, r *run.Runner, c *wireCase, idx int) {
 				continue
 			}
 			r.Violation("extra-field", sig+label+",field="+fieldClass(k), fmt.Sprintf("stored response carries field %s: %q that the origin did not send", k, resp2.Header[k]), nil)
+		}
+		if len(o.trailer) > 0 {
+			if equalStrings(o.trailer["X-Trail"], resp2.Trailer["X-Trail"]) {
+				r.Count("obs:trailer-preserved", 1)
+			} else {
+				r.Count("obs:trailer-lost", 1)
+			}
 		}
 		if cl := resp2.Header.Get("Content-Length"); cl != "" && cl != strconv.Itoa(len(o.body)) {
 			r.Violation("content-length-wrong", sig+label, fmt.Sprintf("Content-Length %s on a stored response with %d body bytes", cl, len(o.body)), nil)
